@@ -167,10 +167,10 @@ Example ex_no_database_ignores_flag :
                                   false CTotals)) = Failed EOpen.
 Proof. split; vm_compute; reflexivity. Qed.
 
-(** stats: no file name, 0 records *)
+(** stats: the null device as file name (fix F24; it used to be the empty name), 0 records *)
 Example ex_no_database_stats :
   exists rest,
     out_stdout (run ZNum w2 (with_no_database (inv None false CStats)))
-    = b "  Database file:      " ++ [c_lf] ++ b "  Database records:   0" ++ [c_lf] ++ rest
+    = b "  Database file:      /dev/null" ++ [c_lf] ++ b "  Database records:   0" ++ [c_lf] ++ rest
     /\ out_status (run ZNum w2 (with_no_database (inv None false CStats))) = Ok.
 Proof. eexists. split; vm_compute; reflexivity. Qed.
